@@ -12,10 +12,10 @@ LEVEL = "exploration"
 ENGINE = "models"
 TECHNIQUE = ("exhaustive enumeration of a tail/body byte-class product plus property-based testing (Hypothesis) "
              "against an independent Java-semantics transcription of Cassandra's partitioners")
-RULE = ("Keys are byte strings given as hex.  Part tail-classes enumerates every length 0..64: the tail (length%16 bytes) takes "
+RULE = ("Keys are byte strings given as hex.  Part tail-classes enumerates every length 0..64 (quick tier: 0..47 and 64): the tail (length%16 bytes) takes "
         "every assignment of the byte classes {00,01,7f,80,ff} for tails of <=6 bytes, and for longer tails every pair of tail "
         "positions x 25 class pairs x 3 background fills {00,41,ff}; the body is a fixed non-repeating pattern.  Part body-words "
-        "enumerates 1-4 blocks whose 8-byte little-endian words take the classes {0,1,7f..,80..,ff..} (all assignments for <=4 words, "
+        "enumerates 1-4 blocks (quick tier: 1-3) whose 8-byte little-endian words take the classes {0,1,7f..,80..,ff..} (all assignments for <=4 words, "
         "all pairs of words otherwise) x tails of 0,1,8,9,15 bytes.  Part random draws keys of 0..4096 bytes (lengths weighted to "
         "block boundaries +-1) and str keys for the MD5 partitioner.  Part minlong substitutes a stub hash returning boundary longs "
         "(a pre-image of Long.MIN_VALUE is infeasible to find) and checks the MIN->MAX mapping through Murmur3Token.from_key. "
@@ -50,7 +50,10 @@ def _body(n):
 # ---------------------------------------------------------------------------------------------
 
 def tail_chunks(tier):
-    # one chunk per length; 65 tasks
+    # one chunk per length.  quick: 0..47 and 64 (0-2 body blocks x every tail size, and the 4-block key);
+    # thorough: every length 0..64
+    if tier == "quick":
+        return [{"len": n} for n in list(range(0, 48)) + [64]]
     return [{"len": n} for n in range(0, 65)]
 
 
@@ -76,7 +79,7 @@ def tail_cases(chunk):
 
 
 def word_chunks(tier):
-    return [{"blocks": b, "tail": t} for b in (1, 2, 3, 4) for t in (0, 1, 8, 9, 15)]
+    return [{"blocks": b, "tail": t} for b in ((1, 2, 3) if tier == "quick" else (1, 2, 3, 4)) for t in (0, 1, 8, 9, 15)]
 
 
 def word_cases(chunk):
